@@ -17,7 +17,7 @@ CHECKS = {
              "written in any mode derives only from that filtered result; Aligner.align sends the segments of all peaks "
              "through the injected AlignmentSegmentConflictResolver(SegmentChainer(SequentialityScorer)); the resolver "
              "walks {(i,i+1)} over the whole chain and writes both results back to their own slots; per-peak "
-             "de-duplication is one-per-key by query label and by reference label keeping the minimum distance. Added after the seeded rounds: second-pass label numbers refer to the whole query; overlapping segments are cut at indices from their own index tables and the conflict test sees every overlap (as C15.5/C15.6); records are joined only with equal orientation and reference (as C08.4). Round 3: the chainer refuses pairs overlapping by more than half (as C14.2). Round 4: a joined record is made only of segments resolved against each other (C01.10); the cut axis of conflict resolution follows the two peak positions and never the strand. Round 5: what is trimmed comes from the own sub-run (C01.11). Round 6: the conflicting sub-run handed to the trim reaches the end of the overlap whatever unpaired labels lie in it, and the label tables the cut is counted in hold every label of their side - pairs and the unpaired labels wrapped in ScoredNotAlignedPosition (C01.12, C01.13, as C15.4 / C15.8). Round 7: a memo in the alignment chain is keyed by every input of what it remembers (C01.14). Round 8: the pairwise pass has no exit that depends on what a segment looks like and its index generator is not a stride-2 zip; a one-per-key selection written as a filter on the smallest distance (all ties kept) is reported; label-table indexes are list indexes (as C15.8); the chainer returns un-chained segments only when at most one is non-empty (C01.15, as C14.4). Round 9: ids and lengths reach AlignmentResultRow.create in the parameters of their own role at every call site (C01.16); the overlap test has no path that answers 'no overlap' without comparing the later start with the earlier end. Round 10: records are frozen also through a local alias of their list (C01.17); the scorer returns one scored position per position (C01.18).",
+             "de-duplication is one-per-key by query label and by reference label keeping the minimum distance. Added after the seeded rounds: second-pass label numbers refer to the whole query; overlapping segments are cut at indices from their own index tables and the conflict test sees every overlap (as C15.5/C15.6); records are joined only with equal orientation and reference (as C08.4). Round 3: the chainer refuses pairs overlapping by more than half (as C14.2). Round 4: a joined record is made only of segments resolved against each other (C01.10); the cut axis of conflict resolution follows the two peak positions and never the strand. Round 5: what is trimmed comes from the own sub-run (C01.11). Round 6: the conflicting sub-run handed to the trim reaches the end of the overlap whatever unpaired labels lie in it, and the label tables the cut is counted in hold every label of their side - pairs and the unpaired labels wrapped in ScoredNotAlignedPosition (C01.12, C01.13, as C15.4 / C15.8). Round 7: a memo in the alignment chain is keyed by every input of what it remembers (C01.14). Round 8: the pairwise pass has no exit that depends on what a segment looks like and its index generator is not a stride-2 zip; a one-per-key selection written as a filter on the smallest distance (all ties kept) is reported; label-table indexes are list indexes (as C15.8); the chainer returns un-chained segments only when at most one is non-empty (C01.15, as C14.4). Round 9: ids and lengths reach AlignmentResultRow.create in the parameters of their own role at every call site (C01.16); the overlap test has no path that answers 'no overlap' without comparing the later start with the earlier end. Round 10: records are frozen also through a local alias of their list (C01.17); the scorer returns one scored position per position (C01.18); a chain member emptied by a resolution does not shield its neighbours (C01.19: violated by the pinned code, listed as known finding K2 - KNOWN-FINDING line, exit 0).",
         note="That the final matching is one-to-one and collinear for every geometry is declined (value-level; the property "
              "text itself records fuzzing counter-examples); two constructs are reported as observations only.",
         tech="static analysis: source->sanitiser->sink flow per mode (R-FLOW), path/term rules on the resolver loop (R-PATH/R-TERM), typed constructor chain (R-TABLE)",
@@ -61,7 +61,7 @@ CHECKS = {
         text="Static error-discipline rules on everything reachable from Program.__init__/run and on the XMAP reader: unpacked "
              "zip(*xs) needs a dominating non-emptiness guard, apply(...).tolist() in the readers needs an .empty guard, "
              "identity-free reductions need default=/initial= or a guard, the Optional worker result is None-tested before "
-             "dereference, the too-long-query early return dominates the 'valid' correlations. Also: argpartition under k < len, empty-row filter, row-header coordinates are exact label coordinates (list.index lookups), additional file names are built by a total function (os.path.splitext). Round 3: no set over a class with __eq__ but no __hash__; positive join-score denominators (as C14.1). Round 4: no array or table survives from one molecule to the next (C07.G13); attribute reads under an isinstance guard exist on every guarded class (C07.G14, contradiction rule). Round 5: the cross-correlation of a reference window is computed only for a non-empty window vector (C07.G15; defect F6, fixed in f18f884). Round 6: the result of groupby().apply() is not iterated without an .empty guard; numpy.convolve / correlate only over vectors known non-empty. Withdrawn after the cross-property audit: C07.G13 (persistent state as a cause of aborts - a run-time matter; C09.3 / C10.1 decide persistent state). Round 7: the pool size never shrinks to 0 with the number of molecules (C07.G18); a correlation is divided only by the same correlation of vectors of the same lengths (C07.G19); negative kth accepted in G7. All checks: an unmodelled decorator on a function or class of src/ or sv/ gives ANALYSIS-ERROR. Round 8: the command-line options keep the type / choices / nargs / action of the pinned interface (C07.G20): an option that parses to another type makes a legitimate value abort or mean something else. Round 9: a row's molecule is looked up by id in the whole query list (C07.G21, as C10.2); the row lists of resolve hold rows only (C07.G22). Round 10: directories are created with exist_ok=True (C07.G23).",
+             "dereference, the too-long-query early return dominates the 'valid' correlations. Also: argpartition under k < len, empty-row filter, row-header coordinates are exact label coordinates (list.index lookups), additional file names are built by a total function (os.path.splitext). Round 3: no set over a class with __eq__ but no __hash__; positive join-score denominators (as C14.1). Round 4: no array or table survives from one molecule to the next (C07.G13); attribute reads under an isinstance guard exist on every guarded class (C07.G14, contradiction rule). Round 5: the cross-correlation of a reference window is computed only for a non-empty window vector (C07.G15; defect F6, fixed in f18f884). Round 6: the result of groupby().apply() is not iterated without an .empty guard; numpy.convolve / correlate only over vectors known non-empty. Withdrawn after the cross-property audit: C07.G13 (persistent state as a cause of aborts - a run-time matter; C09.3 / C10.1 decide persistent state). Round 7: the pool size never shrinks to 0 with the number of molecules (C07.G18); a correlation is divided only by the same correlation of vectors of the same lengths (C07.G19); negative kth accepted in G7. All checks: an unmodelled decorator on a function or class of src/ or sv/ gives ANALYSIS-ERROR. Round 8: the command-line options keep the type / choices / nargs / action of the pinned interface (C07.G20): an option that parses to another type makes a legitimate value abort or mean something else. Round 9: a row's molecule is looked up by id in the whole query list (C07.G21, as C10.2); the row lists of resolve hold rows only (C07.G22). Round 10: directories are created with exist_ok=True (C07.G23); a None-default constructor field that is used as a number is bound to a number at every construction site (C07.G24; defect F7, fixed in ec16595).",
         note="Hand-written summaries of which external calls raise on empty input (listed in evidence assumptions); a frozen "
              "exception table of named lookups with reasons. General exception freedom is declined.",
         tech="static analysis: idiom table (R-GUARD) judged on enumerated paths with guard facts; call-graph reachability",
